@@ -116,7 +116,7 @@ struct C06 : public Driver {
             if (g.chance(1, 2)) { sc.on.insert("gate"); if (g.fork("wp").chance(1, 2)) sc.on.insert("withparam"); } if (g.chance(1, 3)) sc.on.insert("num-gate"); if (g.chance(1, 2)) sc.on.insert("sortlang"); if (g.chance(1, 3)) sc.on.insert("lazyvar");
             sc.keyVariant = (int)g.below(3); if (g.chance(1, 2)) sc.on.insert("key-prefixed"); if (g.chance(1, 2)) sc.on.insert("key-variant"); if (g.chance(1, 4)) sc.on.insert("rtf-key"); if (g.chance(1, 4)) sc.on.insert("ext-evaluate");
             { unsigned m = (unsigned)g.below(12); if (m == 0) { sc.method = ""; sc.rootName = "html"; } else if (m == 1) sc.method = "html"; else if (m == 2) sc.method = "text"; else if (m == 3) { sc.method = ""; } }   // output method: xml mostly; html, text, and the switch to html after the first element
-            sc.dfVariant = (int)g.below(3); if (g.chance(1, 2)) sc.on.insert("fmtnum-df"); if (g.chance(1, 2)) sc.on.insert("sort-gate"); if (g.chance(1, 4)) sc.on.insert("bignum-alpha");
+            sc.dfVariant = (int)g.below(3); if (g.chance(1, 2)) sc.on.insert("fmtnum-df"); if (g.chance(1, 2)) sc.on.insert("sort-gate"); if (g.fork("sort-avt").chance(1, 3)) sc.on.insert("sort-avt"); if (g.chance(1, 4)) sc.on.insert("bignum-alpha");
             { static const std::vector<std::string> langs = { "de", "de", "fr", "en" }; static const std::vector<std::string> cases = { "", "upper-first", "lower-first" }; sc.sortLang = g.pick(langs); sc.sortCase = g.pick(cases); }
             sc.useImport = g.chance(1, 3); sc.useInclude = g.chance(1, 4); sc.docFn = g.chance(1, 3); sc.stripSpace = g.chance(1, 3) || (twin && i == 0);
             if (sc.stripSpace && (g.chance(1, 2) || twin)) { static const std::vector<std::string> sets = { "doc sec", "a b c", "item p", "doc a item", "sec c d p1:a" }; sc.stripNames = g.pick(sets); }      // named elements: the answer depends on the parent's name
